@@ -25,8 +25,8 @@ ASSUMPTIONS = [
     "the source dataset is not written during the run",
 ]
 EXHAUSTIVE = {"thorough": True}
-KINDS = ["identity", "dropodd", "dup", "create", "droplow"]
-KIND_COQ = {"identity": "KIdentity", "dropodd": "KDropOdd", "dup": "KDup", "create": "KCreate", "droplow": "KDropLow"}
+KINDS = ["identity", "dropodd", "dup", "create", "droplow", "pushin"]
+KIND_COQ = {"identity": "KIdentity", "dropodd": "KDropOdd", "dup": "KDup", "create": "KCreate", "droplow": "KDropLow", "pushin": "KPushIn"}
 
 
 def mk(n, batch, par, kind="identity", full=False, wrap=True):
@@ -38,7 +38,9 @@ def witness_cases():
             mk(11, 100, 10, "identity", False, False), mk(11, 100, 10, "dup", True, True),
             # a filtering transform that empties a whole NON-final page must not end the run (fullsync and incremental)
             mk(6, 2, 1, "droplow", True, True), mk(5, 1, 1, "dropodd", True, True), mk(7, 1, 2, "droplow", False, True),
-            mk(6, 2, 1, "droplow", True, False)]
+            mk(6, 2, 1, "droplow", True, False),
+            # a transform that grows its INPUT array in place must not reach into the next worker's chunk
+            mk(6, 100, 2, "pushin", False, True), mk(9, 100, 3, "pushin", False, False), mk(8, 4, 2, "pushin", False, True)]
 
 
 def corpus_cases():
@@ -72,11 +74,11 @@ def gen(rng, tier):
     # thorough: the whole box, one page
     for n in range(0, 25):
         for p in range(1, 13):
-            out.append(mk(n, 1000, p, KINDS[(n + p) % 5], False, True))
+            out.append(mk(n, 1000, p, KINDS[(n + p) % 6], False, True))
     for n in range(1, 25):
         for p in (2, 3, 5, 10):
             for b in range(1, 7):
-                out.append(mk(n, b, p, KINDS[(n + p + b) % 5], (n + b) % 3 == 0, (n + p) % 3 != 0))
+                out.append(mk(n, b, p, KINDS[(n + p + b) % 6], (n + b) % 3 == 0, (n + p) % 3 != 0))
     for _ in range(600):
         n = rng.range(25, 200)
         out.append(mk(n, rng.choice([7, 10, 16, 33, 64, 1000]), rng.range(1, 40), rng.choice(KINDS),
